@@ -719,6 +719,9 @@ def run(ctx):
     ctx.rule('C03.RANGE', lambda: rule_range(ctx), 4)
     ctx.rule('C03.HEIGHTS', lambda: rule_heights(ctx), 2)
     ctx.rule('C03.TOUCHED', lambda: rule_touched(ctx), 4)
+    # headers are an observable of the index: the header merkle cache must not keep orphaned block hashes
+    from . import c11
+    ctx.rule('C03.HEADERMC', lambda: c11.rule_truncate(ctx, 'C03.HEADERMC'), 2)
     # the backup flush truncates history with the decremented count in the same job (shared with C05 / C06)
     from ..effects import InlineGraph
     from .flushcommon import commit_points
